@@ -172,6 +172,9 @@ func ruleAlphabet() [][]any {
 			rs = append(rs, []any{t, p})
 		}
 	}
+	// patterns whose ONLY metacharacter is the backslash escape: they still go through the pattern
+	// matcher, not through a literal comparison (seeded change c03-filter-exact-lookup-fastpath)
+	rs = append(rs, []any{"ALLOW", "\\a"}, []any{"DISALLOW", "d/\\a"}, []any{"DISALLOW", "\\d/b"}, []any{"CREATE", "d\\/a"})
 	for _, p := range []string{"a", "d/a", "x"} {
 		rs = append(rs, []any{"REQUIRE", p})
 	}
@@ -352,7 +355,7 @@ func runC03(r *Runner, tier string, rng *Rng) {
 		add(Case{Op: "clean", Args: map[string]any{"paths": ps}, Feat: "clean"})
 	}
 	flush()
-	r.St.Rule = "small universe: random contexts over paths {a,d/a,d/b} x hashes {absent,h1,h2} for materials/products of item t and step s, each with EVERY rule list of length <= 2 over a 38-rule alphabet (all 7 types, 4 MATCH forms, prefixes '',d,x) plus sampled length-3 lists; random: up to 12 nested paths, up to 8 rules drawn to be mostly satisfiable, unclean paths in every 5th case; rule grammar: token lists of all lengths with keyword/case/position mutations. Class = (rule type sequence, verdict)."
+	r.St.Rule = "small universe: random contexts over paths {a,d/a,d/b} x hashes {absent,h1,h2} for materials/products of item t and step s, each with EVERY rule list of length <= 2 over a 42-rule alphabet (incl. patterns whose only metacharacter is a backslash escape) (all 7 types, 4 MATCH forms, prefixes '',d,x) plus sampled length-3 lists; random: up to 12 nested paths, up to 8 rules drawn to be mostly satisfiable, unclean paths in every 5th case; rule grammar: token lists of all lengths with keyword/case/position mutations. Class = (rule type sequence, verdict)."
 }
 
 func firstLower(rule []any) string {
@@ -429,6 +432,10 @@ func genPattern(rng *Rng, pool []string) string {
 		p := rng.Pick(pool)
 		if rng.Chance(20) {
 			p = path.Base(p)
+		}
+		if len(p) > 0 && rng.Chance(15) {
+			i := rng.Intn(len(p))
+			p = p[:i] + "\\" + p[i:] // an escaped (literal) character
 		}
 		return p
 	}
